@@ -392,7 +392,7 @@ pub fn end_to_end_cells(tier: Tier) -> Vec<CellPlan> {
             c.init = vec![Op::Spawn(0, cells::AB), Op::Spawn(1, cells::AB), Op::Spawn(2, cells::AB)];
             c.alphabet = vec![Op::Nop, Op::Mut(0, TA), Op::Mut(1, TA), Op::Despawn(2), Op::Rm(1, TB)];
             c.rounds = if q { 2 } else { 3 };
-            c.env = Env { hold_acks: true, hold_updates: 1, mutations: MutMenu::Full, leftover_choice: false };
+            c.env = Env { hold_acks: true, hold_updates: 1, mutations: MutMenu::Full, leftover_choice: false, lossy: false };
             c.split_stage = true;
             c.oracles = Oracles { c12: true, ..Default::default() };
             if off != 0 {
